@@ -147,7 +147,7 @@ func (i *interpreter) decideBool(fr *frame, cond string) bool {
 		return c == 0
 	}
 	if len(st.taken) >= st.maxDecs {
-		panic(pathEnd{"decision bound (unwinding) exhausted", true})
+		panic(pathEnd{"decision bound (unwinding) exhausted at " + stackOf(fr), true})
 	}
 	st.pos++
 	r1, _ := st.sol.check(cond, nil)
@@ -171,6 +171,7 @@ func (i *interpreter) decideBool(fr *frame, cond string) bool {
 	st.taken = append(st.taken, 0)
 	st.addPC(cond)
 	st.hr.addDecision()
+	st.hr.profFork(fr)
 	return true
 }
 
@@ -198,7 +199,7 @@ func (i *interpreter) choose(fr *frame, n int, what string) int {
 		return c
 	}
 	if len(st.taken) >= st.maxDecs {
-		panic(pathEnd{"decision bound (unwinding) exhausted", true})
+		panic(pathEnd{"decision bound (unwinding) exhausted at choice " + what + " " + stackOf(fr), true})
 	}
 	st.pos++
 	for c := n - 1; c >= 1; c-- {
@@ -309,6 +310,7 @@ type harnessRun struct {
 	dumpDir     string
 	dumpMax     int
 	dumped      int
+	forkSites   map[string]int
 }
 
 // dumpQuery writes an assertion query (declarations, path condition, negated
@@ -333,6 +335,41 @@ func (h *harnessRun) dumpQuery(st *pathState, label, neg string, r satResult) {
 	sb.WriteString("(assert " + neg + ")\n(check-sat)\n")
 	short := h.name[strings.LastIndex(h.name, ".")+1:]
 	os.WriteFile(filepath.Join(h.dumpDir, fmt.Sprintf("q-%s-%04d.smt2", sanitize(short), n)), []byte(sb.String()), 0o644)
+}
+
+func stackOf(fr *frame) string {
+	var parts []string
+	for f, n := fr, 0; f != nil && n < 6; f, n = f.caller, n+1 {
+		name := f.fn.String()
+		if f.curInstr != nil && f.fn.Prog != nil {
+			name += fmt.Sprintf(":%d", f.fn.Prog.Fset.Position(f.curInstr.Pos()).Line)
+		}
+		parts = append(parts, name)
+	}
+	return strings.Join(parts, " <- ")
+}
+
+var forkProf = os.Getenv("GOSYM_FORKPROF") != ""
+
+func (h *harnessRun) profFork(fr *frame) {
+	if !forkProf || fr == nil {
+		return
+	}
+	var parts []string
+	for f, n := fr, 0; f != nil && n < 4; f, n = f.caller, n+1 {
+		name := f.fn.String()
+		if f.curInstr != nil && f.fn.Prog != nil {
+			name += fmt.Sprintf(":%d", f.fn.Prog.Fset.Position(f.curInstr.Pos()).Line)
+		}
+		parts = append(parts, name)
+	}
+	k := strings.Join(parts, " <- ")
+	h.mu.Lock()
+	if h.forkSites == nil {
+		h.forkSites = map[string]int{}
+	}
+	h.forkSites[k]++
+	h.mu.Unlock()
 }
 
 func (h *harnessRun) addDecision()       { h.mu.Lock(); h.decisions++; h.mu.Unlock() }
